@@ -492,3 +492,17 @@ def _wrong_mode(target, shape, sizes, wf=lambda s: True):
 _wrong_mode(DV + "Divider.render", DIVIDER, Union(Tup(), Tup(Int, Int)), divider_wf)
 _wrong_mode(DV + "Divider.rows", DIVIDER, Union(Tup(), Tup(Int, Int)), divider_wf)
 _wrong_mode(SF + "SolidFill.render", SOLIDFILL, Union(Tup(), Tup(Int)))
+
+
+@contract(WP + "Widget.pack", property="C01", alias="box", replayable=False)
+class widget_pack_box:
+    """The default pack() of every widget for a box size: the size as given, whatever the widget (sizing() is not even
+    consulted) -- so a box rendering "of the size pack reports" is a rendering of the size asked for."""
+    self_shape = Obj(urwid.Widget, {})
+    params = dict(size=BOXSIZE, focus=Bool)
+    result = Tup(Int, Int)
+    raises = ()
+
+    def ensures(old, s, a, result):
+        yield "box-size-returned-as-given", both(result[0] == a.size[0], result[1] == a.size[1])
+        yield "asks-no-one", len(calls()) == 0
